@@ -65,8 +65,8 @@ def predefined_ctx():
     for c, sy, k in siref.table():
         units[sy] = dict(cls=c, scale=k)
         classes.setdefault(c, dict(dim=dims[c], ref=None, quantum=None))
-        if k == 1:
-            classes[c]["ref"] = sy
+        if k == 1 and classes[c]["ref"] is None:
+            classes[c]["ref"] = sy          # the reference unit is listed first
     classes["DataVolume"]["quantum"] = Fraction(1, 8)
     return Ctx([["load_predefined"]], units, classes, "predefined")
 
